@@ -23,29 +23,29 @@ import (
 )
 
 type cliStep struct {
-	Op      string   `json:"op"`
-	Topic   string   `json:"topic,omitempty"`
-	Part    int32    `json:"partition,omitempty"`
-	Broker  int32    `json:"broker,omitempty"`
-	Code    int16    `json:"code,omitempty"`
-	N       int      `json:"n,omitempty"`
+	Op      string    `json:"op"`
+	Topic   string    `json:"topic,omitempty"`
+	Part    int32     `json:"partition,omitempty"`
+	Broker  int32     `json:"broker,omitempty"`
+	Code    int16     `json:"code,omitempty"`
+	N       int       `json:"n,omitempty"`
 	Sets    [][]int32 `json:"sets,omitempty"`
-	Refresh string   `json:"refresh"` // full | topics | none
-	RTopics []string `json:"refresh_topics,omitempty"`
-	Live    []string `json:"-"` // topics that exist without a forgetting error after this step (readers aim mostly at these)
+	Refresh string    `json:"refresh"` // full | topics | none
+	RTopics []string  `json:"refresh_topics,omitempty"`
+	Live    []string  `json:"-"` // topics that exist without a forgetting error after this step (readers aim mostly at these)
 }
 
 type cliScenario struct {
-	Brokers    int
-	Seeds      []int32
-	Protect    int32 // a seed broker that is never removed or readdressed (0 = none)
-	Version    sarama.KafkaVersion
-	Full       bool
-	RetryMax   int
-	Readers    int
-	Background bool
-	InitTopics map[string]int
-	Steps      []cliStep
+	Brokers      int
+	Seeds        []int32
+	Protect      int32 // a seed broker that is never removed or readdressed (0 = none)
+	Version      sarama.KafkaVersion
+	Full         bool
+	RetryMax     int
+	Readers      int
+	Background   bool
+	InitTopics   map[string]int
+	Steps        []cliStep
 	ReadsPerStep int
 }
 
@@ -146,7 +146,7 @@ func cliGenHistory(rng *rand.Rand, tier string) *cliScenario {
 		sc.Readers = 1 + rng.Intn(8)
 	}
 	sc.Background = sc.Readers > 0 && rng.Intn(2) == 0 || rng.Intn(12) == 0
-		sc.ReadsPerStep = 5 + (40+rng.Intn(80))/(sc.Readers+1)
+	sc.ReadsPerStep = 5 + (40+rng.Intn(80))/(sc.Readers+1)
 	all := make([]int32, 0, sc.Brokers)
 	for i := 1; i <= sc.Brokers; i++ {
 		all = append(all, int32(i))
